@@ -887,6 +887,7 @@ def main(ctx) -> int:
 
         kernels.check(ctx, files={'BADA/model.py'})
         kernels.check_vec(ctx, files={'BADA/fuel_burn_base.py'})
+        kernels.check_driver_loops(ctx, profiles=6 if ctx.tier == 'quick' else 60)
         # 3. divergences / broken proofs without a failing clause so far: widened search for a failing input
         if (diverging or ctx.broken) and not ctx.violations:
             srng = make_rng(PID, ctx.seed, 'search')
